@@ -543,3 +543,275 @@ Proof.
   - apply forallb_forall. intros x Hx. rewrite Forall_forall in Hkall. specialize (Hkall _ Hx).
     unfold akeyed in Hkall. rewrite Hkall. apply str_eqb_refl.
 Qed.
+
+(* ====================================================================================== *)
+(* 8. every format reachable through the API satisfies the invariant                       *)
+(* ====================================================================================== *)
+Lemma add_option_inv f o f' : fmt_inv f -> add_option f o = Ok f' -> fmt_inv f'.
+Proof.
+  intros (Ha & Hk & Ho) H. unfold add_option in H.
+  destruct (opt_name_taken f (o_long o)) eqn:Hl; [discriminate|].
+  destruct (optname_taken f (o_short o)) eqn:Hs; [discriminate|].
+  destruct f as [b cn co cs ar os oss hm ho]. inversion H; subst. clear H.
+  split; [exact Ha|]. split; [exact Hk|].
+  assert (forall n, In n (onames o) ->
+            shas n os = false /\ shas n oss = false /\
+            match b with Some bf => has_option_all bf n = false | None => True end) as Hfree.
+  { intros n Hn.
+    assert (opt_name_taken (Fmt b cn co cs ar os oss hm ho) n = false) as Hf.
+    { apply in_onames in Hn as [->|Hn]; [exact Hl|]. rewrite Hn in Hs. exact Hs. }
+    unfold opt_name_taken in Hf. cbn [has_option_all] in Hf.
+    apply orb_false_elim in Hf as [Hf _]. apply orb_false_elim in Hf as [Hf Hb]. apply orb_false_elim in Hf as [H1 H2].
+    split; [exact H1|]. split; [exact H2|]. destruct b; [exact Hb|exact I]. }
+  destruct Ho as (Hkeyed & Hnd & Hsh & Hsep & Hb).
+  assert (sset (o_long o) o os = os ++ [(o_long o, o)]) as Eset.
+  { unfold sset. apply sset_absent. destruct (Hfree (o_long o)) as [H1 _]; [apply in_onames; now left|].
+    unfold shas, ahas in H1. destruct (aget str_eqb (o_long o) os); [discriminate|reflexivity]. }
+  cbn [opts_inv]. rewrite Eset. split; [|split; [|split; [|split]]].
+  - apply Forall_app. split; [exact Hkeyed|]. constructor; [reflexivity|constructor].
+  - rewrite map_app. cbn [map fst]. apply NoDup_app_snoc; [exact Hnd|].
+    apply shas_false_notin. apply (Hfree (o_long o)). apply in_onames. now left.
+  - intros k o' s Hin Hso.
+    assert (shas s oss = true \/ (o' = o)) as [Hold| ->].
+    { apply in_app_or in Hin as [Hin|[E|[]]]; [left; exact (Hsh k o' s Hin Hso)|right; congruence]. }
+    + destruct (o_short o); [rewrite shas_sset, Hold; apply orb_true_r|exact Hold].
+    + rewrite Hso. rewrite shas_sset, str_eqb_refl. reflexivity.
+  - rewrite map_app. cbn [map snd]. apply opts_sep_app; [exact Hsep|split; [intros o' []|exact I]|].
+    intros a b' Hain [<-|[]] n Hna Hno. destruct (Hfree n Hno) as (H1 & H2 & _).
+    apply in_map_iff in Hain as [[k a'] [E Hin]]. cbn [snd] in E. subst a'.
+    apply in_onames in Hna as [->|Hsa].
+    + rewrite Forall_forall in Hkeyed. specialize (Hkeyed _ Hin). unfold okeyed in Hkeyed. cbn [fst snd] in Hkeyed.
+      rewrite <- Hkeyed in H1. rewrite keys_in_shas in H1; [discriminate|].
+      apply in_map_iff. exists (k, a). split; [reflexivity|exact Hin].
+    + rewrite (Hsh k a n Hin Hsa) in H2. discriminate.
+  - destruct b as [bf|]; [|exact I]. destruct Hb as [Hbi Hbf]. split; [exact Hbi|].
+    intros k o' n Hin Hn. apply in_app_or in Hin as [Hin|[E|[]]]; [exact (Hbf k o' n Hin Hn)|].
+    inversion E; subst. apply (Hfree n Hn).
+Qed.
+
+Lemma add_copt_inv f c f' : fmt_inv f -> add_command_option f c = Ok f' -> fmt_inv f'.
+Proof.
+  intros (Ha & Hk & Ho) H. unfold add_command_option in H.
+  repeat match type of H with (if ?c then _ else _) = _ => destruct c; [discriminate|] end.
+  destruct f. inversion H; subst. split; [exact Ha|split; [exact Hk|exact Ho]].
+Qed.
+Lemma add_argument_inv f a f' : fmt_inv f -> arg_valid a = true -> add_argument f a = Ok f' -> fmt_inv f'.
+Proof.
+  intros (Ha & Hk & Ho) Hv H. split; [eapply add_argument_keeps_wf; eauto|].
+  unfold add_argument in H.
+  repeat match type of H with (if ?c then _ else _) = _ => destruct c; [discriminate|] end.
+  destruct f. inversion H; subst. split; [|exact Ho].
+  cbn [akeys_inv] in *. destruct Hk as [Hk Hkb]. split; [|exact Hkb]. apply Forall_sset; [exact Hk|reflexivity].
+Qed.
+Lemma add_cname_inv f c f' : fmt_inv f -> add_command_name f c = Ok f' -> fmt_inv f'.
+Proof. intros Hi H. destruct f. cbn in H. inversion H; subst. exact Hi. Qed.
+
+Lemma add_all_inv {X} (add : fmt -> X -> res fmt) (ok : X -> bool) :
+  (forall f x f', fmt_inv f -> ok x = true -> add f x = Ok f' -> fmt_inv f') ->
+  forall xs f, fmt_inv f -> forallb ok xs = true -> fmt_inv (fst (add_all add f xs)).
+Proof.
+  intros Hadd. induction xs as [|x r IH]; intros f Hw Hok; cbn [add_all]; [exact Hw|].
+  cbn [forallb] in Hok. apply andb_prop in Hok as [Hx Hr].
+  destruct (add f x) as [f'|k] eqn:E; [|exact Hw]. apply IH; [eapply Hadd; eauto|exact Hr].
+Qed.
+Lemma forallb_const_true {X} (l : list X) : forallb (fun _ => true) l = true.
+Proof. induction l; cbn; auto. Qed.
+
+Lemma reset_opts_inv b cn co cs ar os oss hm ho :
+  fmt_inv (Fmt b cn co cs ar os oss hm ho) -> fmt_inv (Fmt b cn co cs ar [] [] hm ho).
+Proof.
+  intros (Ha & Hk & Ho). split; [exact Ha|split; [exact Hk|]]. cbn [opts_inv] in *.
+  destruct Ho as (_ & _ & _ & _ & Hb).
+  split; [constructor|split; [constructor|split; [intros k o s []|split; [exact I|]]]].
+  destruct b as [bf|]; [|exact I]. destruct Hb as [Hb _]. split; [exact Hb|intros k o n []].
+Qed.
+Lemma reset_args_inv b cn co cs ar os oss hm ho :
+  fmt_inv (Fmt b cn co cs ar os oss hm ho) -> fmt_inv (Fmt b cn co cs [] os oss false false).
+Proof.
+  intros ([Hi Hord] & Hk & Ho). split; [|split; [|exact Ho]].
+  - split.
+    + cbn [args_inv] in *. destruct Hi as (_ & _ & _ & _ & Hb). repeat split; auto; try constructor.
+      destruct b as [bf|]; [|exact I]. destruct Hb as [Hb _]. split; [exact Hb|]. intros k [].
+    + unfold args_of in *. rewrite (args_all_app _ Hi) in Hord. cbn [f_base f_args] in Hord.
+      rewrite map_app in Hord. apply order_ok_prefix in Hord.
+      destruct b as [bf|]; cbn; [|reflexivity]. exact Hord.
+  - cbn [akeys_inv] in *. destruct Hk as [_ Hkb]. split; [constructor|exact Hkb].
+Qed.
+
+Lemma bstep_inv f o : fmt_inv f -> bop_valid o = true -> fmt_inv (fst (bstep f o)).
+Proof.
+  intros Hw Hv. destruct o as [o|c|a|c|l|l|l|l]; cbn [bstep bop_valid] in *.
+  - destruct (add_option f o) eqn:E; cbn; [eapply add_option_inv; eauto|exact Hw].
+  - destruct (add_command_option f c) eqn:E; cbn; [eapply add_copt_inv; eauto|exact Hw].
+  - destruct (add_argument f a) eqn:E; cbn; [eapply add_argument_inv; eauto|exact Hw].
+  - destruct (add_command_name f c) eqn:E; cbn; [eapply add_cname_inv; eauto|exact Hw].
+  - destruct f as [b cn co cs ar os oss hm ho].
+    apply (add_all_inv add_option (fun _ => true));
+      [intros; eapply add_option_inv; eauto|eapply reset_opts_inv; eauto|apply forallb_const_true].
+  - destruct f as [b cn co cs ar os oss hm ho].
+    apply (add_all_inv add_command_option (fun _ => true));
+      [intros; eapply add_copt_inv; eauto|exact Hw|apply forallb_const_true].
+  - destruct f as [b cn co cs ar os oss hm ho].
+    apply (add_all_inv add_argument arg_valid); [intros; eapply add_argument_inv; eauto|eapply reset_args_inv; eauto|exact Hv].
+  - destruct f as [b cn co cs ar os oss hm ho].
+    apply (add_all_inv add_command_name (fun _ => true));
+      [intros; eapply add_cname_inv; eauto|exact Hw|apply forallb_const_true].
+Qed.
+
+Lemma brun_inv ops : forall f, fmt_inv f -> forallb bop_valid ops = true -> fmt_inv (brun f ops).
+Proof.
+  induction ops as [|o r IH]; intros f Hw Hv; cbn [brun]; [exact Hw|].
+  cbn [forallb] in Hv. apply andb_prop in Hv as [Ho Hr]. apply IH; [apply bstep_inv; assumption|exact Hr].
+Qed.
+
+Lemma empty_builder_inv_none : fmt_inv (empty_builder None).
+Proof.
+  split; [exact (proj2 empty_builder_wf_none)|]. split; cbn; repeat split; try constructor.
+  intros k o s [].
+Qed.
+Lemma empty_builder_inv_some bf : fmt_inv bf -> fmt_inv (empty_builder (Some bf)).
+Proof.
+  intros ([Hi Hord] & Hk & Ho). split; [|split].
+  - split.
+    + cbn. repeat split; auto; try constructor. intros k [].
+    + unfold args_of. cbn. exact Hord.
+  - cbn. split; [constructor|exact Hk].
+  - cbn. split; [constructor|split; [constructor|split; [intros k o s []|split; [exact I|split; [exact Ho|intros k o n []]]]]].
+Qed.
+
+(* the short-name index rebuilt by build_format knows the short name of every listed option *)
+Lemma short_index_has (os : list (str * opt)) : forall d s,
+  (exists k o, In (k, o) os /\ o_short o = Some s) \/ shas s d = true ->
+  shas s (fold_left (fun d no => match o_short (snd no) with Some s => sset s (snd no) d | None => d end) os d) = true.
+Proof.
+  induction os as [|[k0 o0] r IH]; intros d s H; cbn [fold_left snd].
+  - destruct H as [[k [o [[] _]]]|H]. exact H.
+  - apply IH. destruct H as [[k [o [[E|Hin] Hs]]]|H].
+    + inversion E; subst. right. rewrite Hs, shas_sset, str_eqb_refl. reflexivity.
+    + left. eauto.
+    + right. destruct (o_short o0); [rewrite shas_sset, H; apply orb_true_r|exact H].
+Qed.
+
+Lemma build_format_inv f : fmt_inv f -> fmt_inv (build_format f).
+Proof.
+  intros (Ha & Hk & Ho). split; [now apply build_format_args_wf|].
+  destruct f as [b cn co cs ar os oss hm ho]. unfold build_format.
+  destruct (index_copts (map snd co)). split; [exact Hk|].
+  cbn [opts_inv] in *. destruct Ho as (Hkeyed & Hnd & Hsh & Hsep & Hb).
+  split; [exact Hkeyed|split; [exact Hnd|split; [|split; [exact Hsep|exact Hb]]]].
+  intros k o s Hin Hs. apply short_index_has. left. eauto.
+Qed.
+
+(* ArgsFormat(elements, base) is a special case of builder + build_format *)
+Definition op_of_element (e : element) : bop :=
+  match e with EOpt o => AddOption o | ECOpt c => AddCommandOption c | EArg a => AddArgument a | ECName c => AddCommandName c end.
+Definition element_valid (e : element) : bool := match e with EArg a => arg_valid a | _ => true end.
+Lemma add_elements_brun : forall es f f', add_elements f es = Ok f' -> brun f (map op_of_element es) = f'.
+Proof.
+  induction es as [|e r IH]; intros f f' H; cbn [add_elements map brun] in *; [congruence|].
+  destruct e as [o|c|a|c]; cbn [op_of_element bstep];
+    match type of H with bind ?x _ = _ => destruct x as [f1|k] eqn:E end; cbn [bind lift fst] in *;
+    try discriminate; now apply IH.
+Qed.
+Lemma elements_valid_ops es : forallb element_valid es = true -> forallb bop_valid (map op_of_element es) = true.
+Proof.
+  induction es as [|e r IH]; cbn [forallb map]; [reflexivity|]. intros H. apply andb_prop in H as [He Hr].
+  rewrite (IH Hr), andb_true_r. destruct e; exact He.
+Qed.
+Lemma format_of_elements_built es base f :
+  format_of_elements es base = Ok f -> f = build_format (brun (empty_builder base) (map op_of_element es)).
+Proof.
+  unfold format_of_elements. destruct (add_elements (empty_builder base) es) as [g|k] eqn:E; cbn [bind]; [|discriminate].
+  intros H. inversion H; subst. now rewrite (add_elements_brun _ _ _ E).
+Qed.
+
+(* ---- the formats of the public API: a builder over no base or over such a format, any operations, then .format ---- *)
+Inductive api_format : fmt -> Prop :=
+| api_root ops : forallb bop_valid ops = true -> api_format (build_format (brun (empty_builder None) ops))
+| api_over bf ops : api_format bf -> forallb bop_valid ops = true ->
+                    api_format (build_format (brun (empty_builder (Some bf)) ops)).
+
+Lemma api_format_inv f : api_format f -> fmt_inv f.
+Proof.
+  induction 1 as [ops Hv|bf ops _ IH Hv]; apply build_format_inv, brun_inv; auto.
+  - exact empty_builder_inv_none.
+  - now apply empty_builder_inv_some.
+Qed.
+
+Theorem wf_implies_fmt_ok_lemma f : fmt_inv f -> fmt_ok f = true.
+Proof. intros (Ha & Hk & Ho). now apply fmt_ok_of_inv. Qed.
+
+Theorem reachable_fmt_ok_lemma base ops :
+  match base with Some bf => fmt_inv bf | None => True end -> forallb bop_valid ops = true ->
+  fmt_inv (build_format (brun (empty_builder base) ops)) /\
+  fmt_ok (build_format (brun (empty_builder base) ops)) = true.
+Proof.
+  intros Hb Hv.
+  assert (fmt_inv (build_format (brun (empty_builder base) ops))) as Hi.
+  { apply build_format_inv, brun_inv; [|exact Hv].
+    destruct base as [bf|]; [now apply empty_builder_inv_some|exact empty_builder_inv_none]. }
+  split; [exact Hi|now apply wf_implies_fmt_ok_lemma].
+Qed.
+
+Theorem api_format_fmt_ok_lemma f : api_format f -> fmt_ok f = true.
+Proof. intros H. now apply wf_implies_fmt_ok_lemma, api_format_inv. Qed.
+
+Theorem format_of_elements_fmt_ok_lemma es base f :
+  match base with Some bf => fmt_inv bf | None => True end -> forallb element_valid es = true ->
+  format_of_elements es base = Ok f -> fmt_inv f /\ fmt_ok f = true.
+Proof.
+  intros Hb Hv H. rewrite (format_of_elements_built _ _ _ H).
+  apply reachable_fmt_ok_lemma; [exact Hb|now apply elements_valid_ops].
+Qed.
+
+(* ====================================================================================== *)
+(* 9. parse_spells for every format of the API                                             *)
+(* ====================================================================================== *)
+From Clikit Require Import Proofs.SpellLemmas.
+
+Theorem parse_spells_inv_lemma f d : fmt_inv f -> wf_line f d = true ->
+  forall lenient, parse f lenient (render d) = Ok (denote f d).
+Proof. intros Hi. apply parse_spells_lemma. now apply wf_implies_fmt_ok_lemma. Qed.
+
+Theorem parse_spells_reachable_lemma f d : api_format f -> wf_line f d = true ->
+  forall lenient, parse f lenient (render d) = Ok (denote f d).
+Proof. intros Hi. apply parse_spells_lemma. now apply api_format_fmt_ok_lemma. Qed.
+
+(* ---- concrete reachable formats (by computation): the hypotheses are satisfiable and the conclusion is what
+        vm_compute finds ---- *)
+From Coq Require Import String Ascii.
+Module FmtOkExamples.
+  Import SpellExamples.
+  Definition base_ops : list bop := [AddCommandName c_server; AddArgument a_host; AddOption o_verbose; AddOption o_quiet; AddOption o_color].
+  Definition own_ops : list bop :=
+    [AddCommandName c_add; SetArguments [a_port; a_files]; AddOption o_num; AddOption o_tag; AddOption o_level;
+     AddArgument a_host (* rejected: multi-valued "files" is last *); AddOption o_verbose (* rejected: taken in the base *)].
+  Definition G_base : fmt := build_format (brun (empty_builder None) base_ops).
+  Definition G : fmt := build_format (brun (empty_builder (Some G_base)) own_ops).
+  Lemma G_api : api_format G.
+  Proof. apply api_over; [apply api_root|]; vm_compute; reflexivity. Qed.
+  Example G_fmt_ok_computed : fmt_ok G = true. Proof. vm_compute. reflexivity. Qed.
+  Example G_line_ok : wf_line G D1 = true. Proof. vm_compute. reflexivity. Qed.
+  Example G_is_F2 : get_arguments_all G = get_arguments_all F2 /\ get_options_all G = get_options_all F2 /\
+                    get_command_names_all G = get_command_names_all F2.
+  Proof. repeat split; vm_compute; reflexivity. Qed.
+  Lemma G_parses : forall lenient, parse G lenient (render D1) = Ok (denote G D1).
+  Proof. exact (parse_spells_reachable_lemma G D1 G_api G_line_ok). Qed.
+  (* twelve command names and arguments that occupy the first candidate names: the loop moves on to i = 3 *)
+  Definition cn1 (c : N) : cname := {| cn_name := [c]; cn_aliases := [] |}.
+  Definition many_ops : list bop :=
+    map (fun c => AddCommandName (cn1 c)) [97;98;99;100;101;102;103;104;105;106;107;108]%N ++
+    [AddArgument a_cmd11; AddArgument {| a_name := s "cmd12"; a_flags := 17; a_default := VNone |};
+     AddArgument {| a_name := s "cmd111"; a_flags := 18; a_default := VNone |};
+     AddArgument {| a_name := s "cmd1113"; a_flags := 22; a_default := VList [] |}].
+  Definition G12 : fmt := build_format (brun (empty_builder None) many_ops).
+  Lemma G12_api : api_format G12.
+  Proof. apply api_root. vm_compute. reflexivity. Qed.
+  Example G12_pseudo_names :
+    match aug_format G12 with
+    | Ok (_, _, cns) => map fst cns = [s "cmd13"; s "cmd23"; s "cmd33"; s "cmd43"; s "cmd53"; s "cmd63"; s "cmd73"; s "cmd83";
+                                       s "cmd93"; s "cmd103"; s "cmd113"; s "cmd123"]
+    | Err _ => False end.
+  Proof. vm_compute. reflexivity. Qed.
+  Example G12_fmt_ok_computed : fmt_ok G12 = true. Proof. vm_compute. reflexivity. Qed.
+End FmtOkExamples.
